@@ -67,7 +67,8 @@ def cases(draw):
     pts = draw(gen.points(allv, k=3))
     cfg = draw(st.sampled_from(["default", "default", "default", "lowthr"]))
     return {"env": env, "expr": recipe, "stratum": s, "order": list(order), "vstratum": vstr, "points": pts,
-            "config": cfg, "sense": draw(st.sampled_from(["minimize", "maximize"]))}
+            "config": cfg, "sense": draw(st.sampled_from(["minimize", "maximize"])),
+            "newp": {p["name"]: draw(st.sampled_from([0.5, 2.0, 5.0, -1.5])) for p in env["params"]}}
 
 
 def strategy(tier):
@@ -123,7 +124,16 @@ def check(case):
             except Exception as ex:
                 return Result.violation(f"solve-setup-raises:{exc_label(ex)}", f"{show(recipe)}: {ex!r}", classes)
         judged, offdiag = 0, False
-        for pt in case["points"]:
+        stages = [("initial", pv)]
+        if env["params"] and case.get("newp"):
+            stages.append(("params-updated", dict(case["newp"])))
+        for stage, pv in stages:
+          if stage == "params-updated":
+            # parameters updated AFTER compilation: the same callables (also the one the solver holds) must follow
+            for p_ in env["params"]:
+                b.params[p_["name"]].set(pv[p_["name"]])
+            classes.append("params-updated-after-compilation")
+          for pt in case["points"]:
             j, sc = jet_ref(env, recipe, order, pt, pv, second=True)
             if not sc.ok or sc.maxabs > 1e4 or sc.sing < 0.1:  # second derivatives are judged in the well-conditioned regime
                 continue
